@@ -687,6 +687,9 @@ package spdxexp
 //@ lemma[C10] leavesAssociate: forall a Tree, b Tree, d Tree, x Tree, op string :: leafOf(TNode(op, a, TNode(op, b, d)), x) <==> leafOf(TNode(op, TNode(op, a, b), d), x)
 //@ lemma[C10] leavesIdempotent: forall a Tree, x Tree, op string :: leafOf(TNode(op, a, a), x) <==> leafOf(a, x)
 //@ lemma[C10] leavesDistribute: forall a Tree, b Tree, d Tree, x Tree :: leafOf(TNode("and", a, TNode("or", b, d)), x) <==> leafOf(TNode("or", TNode("and", a, b), TNode("and", a, d)), x)
+// An allowed list that covers every term of an expression satisfies it (C06: with the round trip "the canonical string
+// of a term parses to that term" this is the self-satisfaction clause Satisfies(e, ExtractLicenses(e))).
+//@ lemma[C06,induct,lemmaonly] coveredLeavesSatisfy: forall c seq[string], n int, t Tree :: (forall x Tree :: leafOf(t, x) ==> covLc(x, c, n)) ==> semL(t, c, n)
 
 //@ func Satisfies
 //@   ghostparam x Tree
